@@ -179,13 +179,111 @@ theorem set_version_guards (n : Node) (v : Nat) :
   · intro h1 h2; rw [if_neg (by omega), if_pos h2]
 
 /-- **The switch itself**: a VERSION entry for a version this code has sets the enabled version and the name table
-and is consumed like any other entry. -/
+and is consumed like any other entry; the `onCodeVersionChanged(old, new)` hook runs with both already switched. -/
 theorem version_entry_switches (n : Node) (v idx term : Nat) (h : v ≤ selfCodeVersion n.cls) :
-    ∃ n' cbs, applyEntry n ⟨.version v, idx, term⟩ = (n', Ev.versionChanged n.enabled v :: cbs, true) ∧
+    ∃ n' cbs, applyEntry n ⟨.version v, idx, term⟩ = (n', Ev.versionChanged n.enabled v v v :: cbs, true) ∧
       n'.enabled = v ∧ n'.tableVer = v ∧ n'.lastApplied = n.lastApplied + 1 ∧ ranIdxs cbs = [] := by
   unfold applyEntry
   simp only [if_neg (show ¬ selfCodeVersion n.cls < v by omega)]
   exact ⟨_, _, rfl, rfl, rfl, rfl, ranIdxs_fireCallbacks _ _ _⟩
+
+/-- **The version-change hook sees the new version AND the new name table.** Whenever the apply loop - one entry, a
+batch, or any sequence of ticks / commit moves / appends / subscriptions - reports `onCodeVersionChanged(old, new)`,
+the hook runs in a state where `getCodeVersion() = new` and the name table is the one built for `new`: a replicated
+call issued from inside the hook (a migration step) resolves, by `call_uses_resolved_implementation` and
+`resolution_is_max_le_enabled`, to the newest implementation not above `new`. -/
+theorem hook_sees_new_table :
+    (∀ (n : Node) (e : Entry) (o v he ht : Nat), Ev.versionChanged o v he ht ∈ (applyEntry n e).2.1 →
+      he = v ∧ ht = v ∧ o = n.enabled ∧ e.cmd = .version v) ∧
+    (∀ (n : Node) (ops : List Op) (o v he ht : Nat), Ev.versionChanged o v he ht ∈ (run n ops).2 → he = v ∧ ht = v) := by
+  have hentry : ∀ (n : Node) (e : Entry) (o v he ht : Nat), Ev.versionChanged o v he ht ∈ (applyEntry n e).2.1 →
+      he = v ∧ ht = v ∧ o = n.enabled ∧ e.cmd = .version v := by
+    intro n e o v he ht h
+    have hcb : ∀ (subs : List (Nat × Nat)) (t : Nat) (r : Res), Ev.versionChanged o v he ht ∉ fireCallbacks subs t r := by
+      intro subs t r hm
+      simp only [fireCallbacks, List.mem_map] at hm
+      obtain ⟨s, _, hs⟩ := hm
+      split at hs <;> cases hs
+    unfold applyEntry at h
+    simp only at h
+    split at h
+    · rename_i v' hv'
+      split at h
+      · simp at h
+      · simp only [List.cons_append, List.nil_append, List.mem_cons] at h
+        rcases h with h | h
+        · cases h; exact ⟨rfl, rfl, rfl, hv'⟩
+        · exact absurd h (hcb _ _ _)
+    · split at h
+      · simp only [List.cons_append, List.nil_append, List.mem_cons] at h
+        rcases h with h | h
+        · cases h
+        · exact absurd h (hcb _ _ _)
+      · simp only [List.cons_append, List.nil_append, List.mem_cons] at h
+        rcases h with h | h
+        · cases h
+        · exact absurd h (hcb _ _ _)
+    · simp only [List.nil_append] at h
+      exact absurd h (hcb _ _ _)
+  have hbatch : ∀ (es : List Entry) (n : Node) (o v he ht : Nat),
+      Ev.versionChanged o v he ht ∈ (applyBatch n es).2 → he = v ∧ ht = v := by
+    intro es
+    induction es with
+    | nil => intro n o v he ht h; simp [applyBatch] at h
+    | cons e rest ih =>
+      intro n o v he ht h
+      unfold applyBatch at h
+      have h1 := hentry n e o v he ht
+      cases hae : applyEntry n e with
+      | mk n1 r =>
+        cases r with
+        | mk evs1 b =>
+          rw [hae] at h h1
+          cases b with
+          | true =>
+            simp only at h
+            cases hb : applyBatch n1 rest with
+            | mk n2 evs2 =>
+              rw [hb] at h
+              simp only [List.mem_append] at h
+              rcases h with h | h
+              · exact ⟨(h1 h).1, (h1 h).2.1⟩
+              · exact ih n1 o v he ht (by rw [hb]; exact h)
+          | false =>
+            simp only at h
+            exact ⟨(h1 h).1, (h1 h).2.1⟩
+  refine ⟨hentry, ?_⟩
+  intro n ops
+  induction ops generalizing n with
+  | nil => intro o v he ht h; simp [run] at h
+  | cons op os ih =>
+    intro o v he ht h
+    unfold run at h
+    cases hs : step n op with
+    | mk n1 evs1 =>
+      rw [hs] at h
+      simp only at h
+      cases hr : run n1 os with
+      | mk n2 evs2 =>
+        rw [hr] at h
+        simp only [List.mem_append] at h
+        rcases h with h | h
+        · cases op with
+          | tick =>
+            simp only [step, applyLogEntries] at hs
+            split at hs
+            · simp only [Prod.mk.injEq] at hs
+              obtain ⟨_, rfl⟩ := hs
+              simp at h
+            · split at hs
+              · exact hbatch _ n o v he ht (by rw [hs]; exact h)
+              · simp only [Prod.mk.injEq] at hs
+                obtain ⟨_, rfl⟩ := hs
+                simp at h
+          | setCommit c => simp only [step, Prod.mk.injEq] at hs; obtain ⟨_, rfl⟩ := hs; simp at h
+          | append es => simp only [step, Prod.mk.injEq] at hs; obtain ⟨_, rfl⟩ := hs; simp at h
+          | subscribe i t cb => simp only [step, Prod.mk.injEq] at hs; obtain ⟨_, rfl⟩ := hs; simp at h
+        · exact ih n1 o v he ht (by rw [hr]; exact h)
 
 /-- **The enabled version is a function of the applied entries**: a batch that is consumed completely leaves the
 version of its last VERSION entry (the previous one if it has none). Hence all nodes that applied the same prefix
@@ -198,7 +296,7 @@ theorem enabled_version_is_last_version_applied (n n' : Node) (es : List Entry) 
 example : ∃ (n n' : Node) (es : List Entry) (evs : List Ev), applyBatch n es = (n', evs) ∧
     n'.lastApplied = n.lastApplied + es.length ∧ es.length = 2 ∧ n'.enabled ≠ n.enabled :=
   ⟨initNode [⟨0, [102], 1⟩], { initNode [⟨0, [102], 1⟩] with lastApplied := 3, enabled := 1, tableVer := 1 },
-    [⟨.noop, 2, 1⟩, ⟨.version 1, 3, 1⟩], [Ev.versionChanged 0 1], by decide +kernel, rfl, rfl, by decide⟩
+    [⟨.noop, 2, 1⟩, ⟨.version 1, 3, 1⟩], [Ev.versionChanged 0 1 1 1], by decide +kernel, rfl, rfl, by decide⟩
 
 /-! ## A node that lacks an enabled version stops applying -/
 
